@@ -166,15 +166,15 @@ PROPS["C13"] = dict(
                 "two-run VC; z3 with cvc5 taking the str.indexof queries z3 leaves unknown). Proved for eols=(CRLF,); for (CRLF, LF) the code searches by terminator precedence, which is "
                 "a recorded finding. " + HTTP_NOTE)
 PROPS["C17"] = dict(
-    contracts=["contracts.http_parse"], harness="harness.http_native:C17", level="other", trusted_base=HTTP_EXT,
-    explanation="parseLine step contracts with eols=(CRLF,) PROVED (chunk-size and chunk-end lines). Chunk decode round trip packChunk -> parseChunk over random bodies, chunk partitions, "
+    contracts=["contracts.http_parse", "contracts.c17_chunk"], harness="harness.http_native:C17", level="other", trusted_base=HTTP_EXT,
+    explanation="PROVED: parseChunk as a generator under contract with the environment appending arbitrary bytes at every wait (contracts/c17_chunk.py; parseLine/parseLeader by their callee contracts, no chunk extension): size = hex value of the stripped size line, rejected with HTTPException iff empty or not all hex digits; the chunk is exactly the first `size` bytes of the stream after the size line (it waits for them), exactly those are consumed, the line after the data must be empty, framing lines end with CRLF only; last chunk carries the parsed trailers. parseLine step contracts with eols=(CRLF,) PROVED (chunk-size and chunk-end lines). Chunk decode round trip packChunk -> parseChunk over random bodies, chunk partitions, "
                 "trailers and wire fragmentations, and rejection of non-plain-hex sizes: bounded natively. " + HTTP_NOTE)
 PROPS["C15"] = dict(
     contracts=["contracts.http_parse"], harness="harness.http_native:C15", level="other", trusted_base=HTTP_EXT,
     explanation="parseLine step contracts with eols=(CRLF, LF, CR) (earliest-terminator and prefix-stability clauses: both are recorded findings on this tree). Event dispatch against an SSE reference "
                 "written from the ABNF, plain and chunked transport, all line-terminator mixes, fragmentations: bounded natively. " + HTTP_NOTE)
 PROPS["C16"] = dict(
-    contracts=["contracts.http_parse"], harness="harness.http_native:C16", level="other", trusted_base=HTTP_EXT,
+    contracts=["contracts.http_parse", "contracts.c17_chunk"], harness="harness.http_native:C16", level="other", trusted_base=HTTP_EXT,
     explanation="parseLine PROVED to raise only LineTooLong (an HTTPException) and only beyond the limit. Everything above it: near-valid and mutated byte strings through Server.service, "
                 "BareServer.service and http Client.service on fake sockets with a second, healthy connection that must still be served: bounded natively. " + HTTP_NOTE)
 PROPS["C14"] = dict(
